@@ -23,7 +23,7 @@
    Mutators: heap -> res, with the checkMutable test in the position the code
    has it.  Arguments that are hashed or compared (keys, the operand of
    remove) are atoms; stored payloads are arbitrary values. *)
-From Coq Require Import List Arith Bool ZArith Lia.
+From Coq Require Import List Arith Bool ZArith.
 From SV Require Import C04.Heap.
 Import ListNotations.
 
